@@ -52,6 +52,10 @@ pub struct PrefSpec {
     /// install a never-true abort predicate that counts polls (calibration)
     #[serde(default)]
     pub count_polls: bool,
+    /// schedule perturbation through the yield hook: Some(seed) injects seeded yields / spins /
+    /// sleeps at every relation-store lock acquisition and completion check; Some(0) only counts
+    #[serde(default)]
+    pub perturb: Option<u64>,
 }
 
 impl PrefSpec {
@@ -113,8 +117,89 @@ fn build_prefs(p: &PrefSpec, polls: &Arc<AtomicU64>, first_true: &Arc<Mutex<Opti
     prefs
 }
 
+// ---- schedule perturbation (yield hook) ----
+static PSEED: AtomicU64 = AtomicU64::new(0);
+static PCOUNT: AtomicU64 = AtomicU64::new(0);
+static PSLEEPS: AtomicU64 = AtomicU64::new(0);
+const NSITES: usize = 24;
+#[allow(clippy::declare_interior_mutable_const)]
+const AZ: AtomicU64 = AtomicU64::new(0);
+static SITE_HITS: [AtomicU64; NSITES] = [AZ; NSITES];
+static WRITER_THREADS: Mutex<Vec<std::thread::ThreadId>> = Mutex::new(Vec::new());
+
+fn perturb_hook(site: u32) {
+    let c = PCOUNT.fetch_add(1, Ordering::Relaxed);
+    if (site as usize) < NSITES {
+        SITE_HITS[site as usize].fetch_add(1, Ordering::Relaxed);
+    }
+    // sites 6, 11, 12, 20 are the relation-store write locks
+    if matches!(site, 6 | 11 | 12 | 20) {
+        let id = std::thread::current().id();
+        let mut g = WRITER_THREADS.lock().unwrap();
+        if !g.contains(&id) {
+            g.push(id);
+        }
+    }
+    let seed = PSEED.load(Ordering::Relaxed);
+    if seed == 0 {
+        return;
+    }
+    let mut r = SplitMix(seed ^ c.wrapping_mul(0x9E3779B97F4A7C15) ^ ((site as u64) << 56));
+    let h = r.next();
+    // PCT-flavoured: most points pass untouched, a few yield, fewer spin, rare sleeps
+    match h % 64 {
+        0..=51 => {}
+        52..=58 => std::thread::yield_now(),
+        59..=62 => {
+            // spin 1..200 microseconds
+            let us = 1 + (h >> 8) % 200;
+            let t0 = Instant::now();
+            while t0.elapsed().as_micros() < us as u128 {
+                std::hint::spin_loop();
+            }
+        }
+        _ => {
+            // occasional 1 ms sleep (bounded in number so that runs stay short)
+            if PSLEEPS.fetch_add(1, Ordering::Relaxed) < 200 {
+                std::thread::sleep(std::time::Duration::from_millis(1));
+            } else {
+                std::thread::yield_now();
+            }
+        }
+    }
+}
+
+fn perturb_install(seed: Option<u64>) {
+    PCOUNT.store(0, Ordering::SeqCst);
+    PSLEEPS.store(0, Ordering::SeqCst);
+    for s in SITE_HITS.iter() {
+        s.store(0, Ordering::SeqCst);
+    }
+    WRITER_THREADS.lock().unwrap().clear();
+    match seed {
+        Some(s) => {
+            PSEED.store(s, Ordering::SeqCst);
+            yamaquasi::verif_sched::set_yield_fn(Some(perturb_hook));
+        }
+        None => yamaquasi::verif_sched::set_yield_fn(None),
+    }
+}
+
 /// Run one factorisation in this process; panics are caught.
 pub fn run_factor(n: &U1024, algo: &str, p: &PrefSpec) -> Value {
+    perturb_install(p.perturb);
+    let mut v = run_factor_inner(n, algo, p);
+    if p.perturb.is_some() {
+        yamaquasi::verif_sched::set_yield_fn(None);
+        let hits: Vec<u64> = SITE_HITS.iter().map(|s| s.load(Ordering::SeqCst)).collect();
+        v["yield_points"] = json!(PCOUNT.load(Ordering::SeqCst));
+        v["site_hits"] = json!(hits);
+        v["writer_threads"] = json!(WRITER_THREADS.lock().unwrap().len());
+    }
+    v
+}
+
+fn run_factor_inner(n: &U1024, algo: &str, p: &PrefSpec) -> Value {
     let Some(alg) = parse_algo(algo) else {
         return json!({"r": "bad-job", "msg": "algo"});
     };
@@ -551,6 +636,7 @@ pub fn prefs_strategy() -> impl Strategy<Value = PrefSpec> {
             use_double,
             abort_after: None,
             count_polls: false,
+            perturb: None,
         })
 }
 
